@@ -793,6 +793,10 @@ class _Unmarshaller:
 
 
 def _read(self, n):
+    if n < 0:
+        # A negative length would move the read position backwards and
+        # the same data would be read again, possibly for ever.
+        raise ValueError("bad marshal data (negative length)")
     pos = self.bufpos
     newpos = pos + n
     if newpos > len(self.bufstr):
